@@ -25,7 +25,7 @@ def IsFault {α : Type} : Except PErr α → Prop
 /-- equal, or both a fault (panic / unreachable / hang) -/
 def FaultEq {α : Type} (a b : Except PErr α) : Prop := a = b ∨ (IsFault a ∧ IsFault b)
 
-theorem FaultEq.rfl' {α : Type} (a : Except PErr α) : FaultEq a a := Or.inl rfl
+theorem FaultEq.refl {α : Type} (a : Except PErr α) : FaultEq a a := Or.inl rfl
 
 theorem FaultEq.of_faults {α : Type} {a b : Except PErr α} (ha : IsFault a) (hb : IsFault b) : FaultEq a b :=
   Or.inr ⟨ha, hb⟩
@@ -88,7 +88,7 @@ theorem scan_agree (H : Hashes) (m : Msg) (c : Creds) (algo : Algo) (mac : Bytes
     · have hne : data ≠ [] := by intro h; subst h; simp at hemp
       simp only [hemp, Bool.false_eq_true, not_false_eq_true, if_true, if_false]
       cases hr : rawFromBytes data with
-      | error e => exact FaultEq.rfl' _
+      | error e => exact FaultEq.refl _
       | ok attr =>
         simp only
         have hv := raw_value_le hr
@@ -96,7 +96,7 @@ theorem scan_agree (H : Hashes) (m : Msg) (c : Creds) (algo : Algo) (mac : Bytes
         · have h1' : (decide (algo = Algo.sha1) && decide (attr.ty = tyMI)) = true := by simp [h1.1, h1.2]
           simp only [h1, and_self, if_true, h1', miFromRaw]
           cases hf : fromRaw .messageIntegrity attr with
-          | error e => exact FaultEq.rfl' _
+          | error e => exact FaultEq.refl _
           | ok v =>
             cases v with
             | messageIntegrity h =>
@@ -109,7 +109,7 @@ theorem scan_agree (H : Hashes) (m : Msg) (c : Creds) (algo : Algo) (mac : Bytes
               simp only [h1.1, h1.2, decide_true, Bool.and_self, if_true]
               exact match_ite _ _ _
             · simp only [hh, ne_eq, not_false_eq_true, if_true, if_false]
-              exact FaultEq.rfl' _
+              exact FaultEq.refl _
             | _ => apply FaultEq.of_faults <;> simp [IsFault]
         · have h1' : (decide (algo = Algo.sha1) && decide (attr.ty = tyMI)) = false := by
             simp only [Bool.and_eq_false_iff, decide_eq_false_iff_not]
@@ -121,7 +121,7 @@ theorem scan_agree (H : Hashes) (m : Msg) (c : Creds) (algo : Algo) (mac : Bytes
           · have h2' : (decide (algo = Algo.sha256) && decide (attr.ty = tyMI256)) = true := by simp [h2.1, h2.2]
             simp only [h2, and_self, if_true, h2', mi256FromRaw]
             cases hf : fromRaw .messageIntegritySha256 attr with
-            | error e => exact FaultEq.rfl' _
+            | error e => exact FaultEq.refl _
             | ok v =>
               cases v with
               | messageIntegritySha256 h =>
@@ -134,7 +134,7 @@ theorem scan_agree (H : Hashes) (m : Msg) (c : Creds) (algo : Algo) (mac : Bytes
                 simp only [h2.1, h2.2, decide_true, Bool.and_self, if_true]
                 exact match_ite _ _ _
               · simp only [hh, ne_eq, not_false_eq_true, if_true, if_false]
-                exact FaultEq.rfl' _
+                exact FaultEq.refl _
               | _ => apply FaultEq.of_faults <;> simp [IsFault]
           · have h2' : (decide (algo = Algo.sha256) && decide (attr.ty = tyMI256)) = false := by
               simp only [Bool.and_eq_false_iff, decide_eq_false_iff_not]
@@ -175,31 +175,31 @@ theorem src_validateIntegrity_faultEq (H : Hashes) (m : Msg) (c : Creds) (hsz : 
       · have : m.data.drop 20 = [] := List.drop_eq_nil_of_le (by omega)
         rw [this]; exact scan_nil_fault _ _ _ _ _ _ _
   cases h1 : m.rawAttribute tyMI <;> cases h2 : m.rawAttribute tyMI256
-  · exact FaultEq.rfl' _
+  · exact FaultEq.refl _
   · rename_i s256
     simp only [mi256FromRaw]
     cases hf : fromRaw .messageIntegritySha256 s256 with
-    | error e => exact FaultEq.rfl' _
+    | error e => exact FaultEq.refl _
     | ok v =>
       cases v with
       | messageIntegritySha256 h => exact key _ _
-      | _ => exact FaultEq.rfl' _
+      | _ => exact FaultEq.refl _
   · rename_i s1
     simp only [miFromRaw]
     cases hf : fromRaw .messageIntegrity s1 with
-    | error e => exact FaultEq.rfl' _
+    | error e => exact FaultEq.refl _
     | ok v =>
       cases v with
       | messageIntegrity h => exact key _ _
-      | _ => exact FaultEq.rfl' _
+      | _ => exact FaultEq.refl _
   · rename_i s1 s256
     simp only [mi256FromRaw]
     cases hf : fromRaw .messageIntegritySha256 s256 with
-    | error e => exact FaultEq.rfl' _
+    | error e => exact FaultEq.refl _
     | ok v =>
       cases v with
       | messageIntegritySha256 h => exact key _ _
-      | _ => exact FaultEq.rfl' _
+      | _ => exact FaultEq.refl _
 
 theorem accepted_size (b : Bytes) (m : Msg) (hp : msgFromBytes b = .ok m) : m.data.length ≤ 65555 := by
   unfold msgFromBytes at hp
